@@ -148,7 +148,7 @@ void h_check(void)
 #endif /* CV_NATIVE (refreshCheck part) */
 
 #ifndef CV_NATIVE
-extern int rs_refreshStaleness(long expires, long timestamp, long lastmod, long check_time, long age,
+extern long rs_refreshStaleness(long expires, long timestamp, long lastmod, long check_time, long age,
                                long rmin, double pct, long rmax, int sf_in_bits);
 extern int g_sf_bits;
 
@@ -165,7 +165,7 @@ void h_expiry(void)
     __CPROVER_assume(sf_in >= 0 && sf_in <= 15);
     /* timestamp, lastmod, age, rmin, rmax: any long */
 
-    int r = rs_refreshStaleness(expires, timestamp, lastmod, check_time, age, rmin, pct, rmax, sf_in);
+    long r = rs_refreshStaleness(expires, timestamp, lastmod, check_time, age, rmin, pct, rmax, sf_in);
 
 #ifdef TWIN_STALE
     __CPROVER_assert((r == -1) != (expires > check_time), "ensures: TWIN (negated) explicit expiry: fresh <=> expires > check_time");
@@ -201,7 +201,7 @@ void h_heuristic(void)
     __CPROVER_assume(sf_in >= 0 && sf_in <= 15);
     /* check_time: any long (unused without an explicit expiry) */
 
-    int r = rs_refreshStaleness(expires, timestamp, lastmod, check_time, age, rmin, pct, rmax, sf_in);
+    long r = rs_refreshStaleness(expires, timestamp, lastmod, check_time, age, rmin, pct, rmax, sf_in);
 
     int rule = spec_rule(expires, timestamp, lastmod, check_time, age, rmin, pct, rmax);
     __CPROVER_assert(r >= -1, "ensures: the result is -1 (fresh) or a non-negative staleness, never another negative number");
